@@ -114,7 +114,7 @@ def run(ctx):
     runs, dstats, dyn_counts = [], {}, {"race": 0, "fatal": 0, "panic": 0, "timeout": 0, "childfail": 0}
     explained, unexplained = {}, []
     if okD and static_ok:
-        n = 12 if ctx.tier == "quick" else 400
+        n = 40 if ctx.tier == "quick" else 400
         args = [str(dbin), "-out", str(ctx.rundir), "-seed", str(ctx.seed), "-n", str(n), "-workers", "8"]
         if ctx.replay:
             rp = json.load(open(ctx.replay))
